@@ -83,11 +83,11 @@ type UserBindEngine struct {
 	// int-represented enum to a string or any of these kinds (a kind that can hold at least one member's
 	// representation int).  Off (C08, C09, C13): int64 / int, and string / int32 / int64 / int.
 	AllIntKinds bool
-	// AllSlotShapes (C19): the other slot shapes verifyCompatibility accepts and the node code serves: a slot that is not
-	// nullable (struct field, list element, map value; also the value behind an optional field's or a union member's
-	// pointer) is sometimes bound to ONE pointer; an optional field that is not nullable, or a nullable field that is not
-	// optional, is sometimes bound to a bare nilable Go type (slice, []byte, datamodel.Link, datamodel.Node) instead of a
-	// pointer.  Off: pointers exactly for optional and nullable.
+	// AllSlotShapes (C19): the other slot shapes verifyCompatibility accepts: every value slot (struct field, list element,
+	// map value, the value behind an optional field's or a union member's pointer) sometimes has ONE pointer more than it
+	// needs (*T for a required non-nullable slot, **T for a nullable one, ***T for optional and nullable); a nullable slot,
+	// and an optional field that is not nullable, is sometimes bound to a bare nilable Go type (slice, []byte,
+	// datamodel.Link, datamodel.Node) instead of a pointer.  Off: pointers exactly for optional and nullable.
 	AllSlotShapes bool
 }
 
@@ -120,6 +120,28 @@ func (e *UserBindEngine) pick(name string, n int) int {
 }
 
 func userFieldName(name string) string { return strings.Title(name) } //lint:ignore SA1019 mirrors bindnode
+
+// slotType is the Go type of a value slot for base type bt: a nullable slot is a pointer - or, with AllSlotShapes, sometimes
+// the bare type itself where that is nilable (slice, interface) - and, with AllSlotShapes, a slot sometimes has ONE pointer
+// more than it needs (*T for T, **T for nullable): verifyCompatibility strips one pointer from every type it is handed.
+func (e *UserBindEngine) slotType(bt reflect.Type, nullable bool, key string) reflect.Type {
+	k := 99
+	if e.AllSlotShapes {
+		k = e.pick("slot:"+key, 16)
+	}
+	nilable := bt.Kind() == reflect.Slice || bt.Kind() == reflect.Interface
+	switch {
+	case nullable && nilable && k < 5:
+		return bt
+	case nullable && k == 5:
+		return reflect.PointerTo(reflect.PointerTo(bt))
+	case nullable:
+		return reflect.PointerTo(bt)
+	case k < 3:
+		return reflect.PointerTo(bt)
+	}
+	return bt
+}
 
 func (e *UserBindEngine) goType(t schema.Type) reflect.Type {
 	switch typ := t.(type) {
@@ -166,38 +188,29 @@ func (e *UserBindEngine) goType(t schema.Type) reflect.Type {
 		}
 		return reflect.TypeOf("")
 	case *schema.TypeList:
-		et := e.goType(typ.ValueType())
-		if typ.ValueIsNullable() || (e.AllSlotShapes && e.pick("elemptr:"+typ.Name(), 5) == 0) {
-			et = reflect.PointerTo(et)
-		}
+		et := e.slotType(e.goType(typ.ValueType()), typ.ValueIsNullable(), "elem:"+typ.Name())
 		return reflect.SliceOf(et)
 	case *schema.TypeMap:
 		kt := e.goType(typ.KeyType())
-		vt := e.goType(typ.ValueType())
-		if typ.ValueIsNullable() || (e.AllSlotShapes && e.pick("valueptr:"+typ.Name(), 5) == 0) {
-			vt = reflect.PointerTo(vt)
-		}
+		vt := e.slotType(e.goType(typ.ValueType()), typ.ValueIsNullable(), "value:"+typ.Name())
 		return reflect.StructOf([]reflect.StructField{{Name: "Keys", Type: reflect.SliceOf(kt)}, {Name: "Values", Type: reflect.MapOf(kt, vt)}})
 	case *schema.TypeStruct:
 		var fs []reflect.StructField
 		for _, f := range typ.Fields() {
 			ft := e.goType(f.Type())
-			k := 99
-			if e.AllSlotShapes {
-				k = e.pick("fieldslot:"+typ.Name()+"."+f.Name(), 8)
-			}
-			nilable := ft.Kind() == reflect.Slice || ft.Kind() == reflect.Interface
+			key := "field:" + typ.Name() + "." + f.Name()
 			switch {
+			case f.IsOptional() && !f.IsNullable() && e.AllSlotShapes && (ft.Kind() == reflect.Slice || ft.Kind() == reflect.Interface) && e.pick("optbare:"+key, 8) < 3:
+				// optional, bound to the bare nilable type: nil is absent
 			case f.IsOptional() && f.IsNullable():
-				ft = reflect.PointerTo(reflect.PointerTo(ft)) // the double pointer is mandatory
-			case f.IsOptional() && nilable && k < 3, f.IsNullable() && nilable && k < 3:
-				// the bare nilable type: nil is absent / null
-			case f.IsOptional() && k == 3:
-				ft = reflect.PointerTo(reflect.PointerTo(ft)) // optional, and one pointer on the value behind it
-			case f.IsOptional(), f.IsNullable():
-				ft = reflect.PointerTo(ft)
-			case k < 2:
-				ft = reflect.PointerTo(ft) // one pointer on a required, non-nullable field
+				ft = reflect.PointerTo(reflect.PointerTo(ft)) // "optional and nullable fields must use double pointers"
+				if e.AllSlotShapes && e.pick("slot:"+key, 16) == 5 {
+					ft = reflect.PointerTo(ft)
+				}
+			case f.IsOptional():
+				ft = reflect.PointerTo(e.slotType(ft, false, key))
+			default:
+				ft = e.slotType(ft, f.IsNullable(), key)
 			}
 			fs = append(fs, reflect.StructField{Name: userFieldName(f.Name()), Type: ft})
 		}
